@@ -227,10 +227,16 @@ inline Outcome compare_session(const Case& c, Violations& V, Stats& S, const cha
     std::vector<bytes> stack = P.stack, copy;
     Err re = Err::OK;
     bool impl_failed = false;
-    bytes last_script; bool redeem_ran = false;
+    bytes last_script; bool redeem_ran = false; Err empty_spk_err = Err::OK;
     for (size_t ph = 0; ph < P.scripts.size() + (P.p2sh ? 1 : 0); ph++) {
         bytes script;
         if (ph < P.scripts.size()) script = P.scripts[ph];
+        if (ph == 1 && P.type == "legacy" && !P.p2sh && P.scripts.size() == 2 && P.scripts[1].empty()) {
+            // an EMPTY scriptPubKey: there is nothing to hand over to and the tool makes no hand-over step; the rule the hand-over applies to a
+            // scriptSig (SIGPUSHONLY) is due with the verdict
+            if ((c.flags & F_SIGPUSHONLY) && !is_push_only(P.scripts[0])) empty_spk_err = Err::SIG_PUSHONLY;
+            continue;
+        }
         if (ph >= 1) {
             // switch micro-step
             if (ph == 1) copy = stack;
@@ -323,6 +329,20 @@ inline Outcome compare_session(const Case& c, Violations& V, Stats& S, const cha
             else wpe = verify_witness_program({}, ver, prog, c.flags, ck, redeem_ran);
         }
     }
+    if (re == Err::OK && empty_spk_err != Err::OK) {
+        fe = step_impl();
+        if (fe != err_name(empty_spk_err)) { rep(std::string("final-verdict:empty-scriptpubkey;ref=") + err_name(empty_spk_err) + ";impl=" + (fe == "" ? "OK" : fe), "the output's scriptPubKey is empty and the scriptSig is not push-only under SIGPUSHONLY: validation reports " + std::string(err_name(empty_spk_err)) + ", the final step reports " + (fe == "" ? "success" : fe)); return O; }
+        S.invalid++; S.outcomes["invalid:legacy:empty-scriptpubkey"]++;
+        if (have_rv && rv == Err::OK) rep("invalid-verdict-for-valid-spend:legacy:" + c.klass, "the reference model of the session and validation disagree");
+        return O;
+    }
+    if (re == Err::OK && inst.at_end() && P.type == "legacy" && P.scripts.size() == 2 && P.scripts[0].empty() && P.scripts[1].empty()) {
+        // empty scriptSig and empty scriptPubKey: a session without a single step; the (empty) final stack is the verdict
+        O.all_steps_ok = true;
+        bool v = false; S.invalid++; S.outcomes["invalid:legacy:no-steps"]++;
+        if (have_rv && rv == Err::OK) rep("invalid-verdict-for-valid-spend:legacy:" + c.klass, "validation accepts a spend with an empty final stack?");
+        (void)v; return O;
+    }
     if (re == Err::OK && wpe != Err::OK) {
         fe = step_impl();
         if (fe != err_name(wpe)) { rep(std::string("final-verdict:witness-program-without-witness;ref=") + err_name(wpe) + ";impl=" + (fe == "" ? "OK" : fe), "the evaluation ends on a witness program and the input has no witness: validation reports " + std::string(err_name(wpe)) + ", the final step reports " + (fe == "" ? "success" : fe)); return O; }
@@ -330,7 +350,10 @@ inline Outcome compare_session(const Case& c, Violations& V, Stats& S, const cha
         if (have_rv && rv == Err::OK) rep("invalid-verdict-for-valid-spend:legacy:" + c.klass, "the reference model of the session and validation disagree");
         return O;
     }
-    if (re == Err::OK) {
+    if (re == Err::OK && stepno == 0 && inst.at_end()) {
+        // a session without a single step (its only script is empty): it is done from the start, there is no verdict step to take
+        impl_ok = true; O.all_steps_ok = true;
+    } else if (re == Err::OK) {
         fe = step_impl();
         impl_ok = fe == "" && inst.at_end();
         if (!impl_ok) { rep(std::string("final-verdict:") + tk + ";impl=" + fe, "all scripts ran without error but the final step reports " + fe); return O; }
